@@ -64,6 +64,7 @@ func main() {
 	minimise := flag.String("minimise", "", "failure file to minimise")
 	maxFail := flag.Int("maxfail", 8, "stop after this many failures")
 	evalTimeout := flag.Float64("evaltimeout", 30, "wall-clock limit of one evaluation in seconds")
+	raceLog := flag.String("racelog", "", "race lane: prefix given to GORACE=log_path (reports are attributed to the evaluation that produced them)")
 	flag.Parse()
 
 	if err := harness.LoadSites(*sites); err != nil {
@@ -77,6 +78,7 @@ func main() {
 	}
 	env := &harness.Env{Tier: *tier, Variant: *variant}
 
+	replayRaceLog = *raceLog
 	switch {
 	case *replay != "":
 		os.Exit(doReplay(s, env, *replay))
@@ -130,6 +132,13 @@ func main() {
 		cur.Store(&harness.Failure{Prop: *prop, Seed: es, Eval: i, Variant: *variant})
 		o := s.Eval(c, env)
 		tick.Add(1)
+		if *raceLog != "" {
+			// always consume what the race detector wrote during this evaluation, so that a
+			// report is never attributed to a later evaluation
+			if v := newRaceReports(*raceLog); v != nil && o.V == nil {
+				o.V = v
+			}
+		}
 		rep.Evals++
 		rep.Runs += o.Runs
 		rep.Steps += o.Steps
@@ -183,6 +192,33 @@ func main() {
 	rep.DetHash = fmt.Sprintf("%x", det)
 	rep.WallS = time.Since(start).Seconds()
 	writeReport(rep, *out)
+}
+
+var raceLogOff int64
+
+// newRaceReports reads what the race detector appended to its log since the
+// last call and turns reports whose two access stacks both contain a frame of
+// the code under test into a violation of the evaluation that just ran.
+func newRaceReports(prefix string) *harness.Violation {
+	path := fmt.Sprintf("%s.%d", prefix, os.Getpid())
+	b, err := os.ReadFile(path)
+	if err != nil || int64(len(b)) <= raceLogOff {
+		return nil
+	}
+	fresh := string(b[raceLogOff:])
+	raceLogOff = int64(len(b))
+	for _, rep := range strings.Split(fresh, "==================\n") {
+		if !strings.Contains(rep, "WARNING: DATA RACE") {
+			continue
+		}
+		frames := harness.RaceFrames(rep)
+		if len(frames) < 2 {
+			continue // no frame of the code under test on one side: harness noise, not a verdict
+		}
+		return &harness.Violation{Oracle: "no-data-race", Class: "race:" + strings.Join(frames, "<->"),
+			Message: "the race detector reports a data race between " + frames[0] + " and " + frames[1] + " (accesses not ordered by any synchronisation of the real program)", Detail: rep}
+	}
+	return nil
 }
 
 func writeReport(rep *Report, out string) {
@@ -265,20 +301,30 @@ func doMinimise(s harness.Scenario, env *harness.Env, path, out string) int {
 		return 2
 	}
 	env.Variant = f.Variant
-	v, _, tests := harness.Minimise(s, env, f, 60*time.Second)
-	if v == nil {
+	env.KeepTrace = true
+	// first reproduction in this fresh process: kept as the fallback when the violation cannot be
+	// reproduced a second time in one process (it persists in process state, e.g. a table that
+	// has been sorted in place stays sorted)
+	c0 := harness.NewReplay(f.Choices)
+	o0 := s.Eval(c0, env)
+	if o0.V == nil || o0.V.Class != f.V.Class || o0.V.Oracle != f.V.Oracle {
 		fmt.Fprintln(os.Stderr, "worker: failure did not reproduce in the minimiser process")
 		return 3
 	}
-	// final evaluation with traces
-	env.KeepTrace = true
-	c := harness.NewReplay(v)
-	o := s.Eval(c, env)
-	if o.V == nil || o.V.Class != f.V.Class {
-		fmt.Fprintln(os.Stderr, "worker: minimised vector did not reproduce")
-		return 3
+	env.KeepTrace = false
+	v, _, tests := harness.Minimise(s, env, f, 60*time.Second)
+	var rf *ReplayFile
+	if v != nil {
+		env.KeepTrace = true
+		c := harness.NewReplay(v)
+		o := s.Eval(c, env)
+		if o.V != nil && o.V.Class == f.V.Class {
+			rf = buildReplay(f, o, c.Log, tests, len(f.Choices))
+		}
 	}
-	rf := buildReplay(f, o, c.Log, tests, len(f.Choices))
+	if rf == nil {
+		rf = buildReplay(f, o0, c0.Log, 1, len(f.Choices))
+	}
 	b, _ := json.MarshalIndent(rf, "", " ")
 	if err := os.WriteFile(out, b, 0o644); err != nil {
 		fmt.Fprintln(os.Stderr, "worker:", err)
@@ -286,6 +332,8 @@ func doMinimise(s harness.Scenario, env *harness.Env, path, out string) int {
 	}
 	return 0
 }
+
+var replayRaceLog string
 
 func doReplay(s harness.Scenario, env *harness.Env, path string) int {
 	f, rf, err := readFailure(path)
@@ -297,6 +345,9 @@ func doReplay(s harness.Scenario, env *harness.Env, path string) int {
 	env.KeepTrace = true
 	c := harness.NewReplay(f.Choices)
 	o := s.Eval(c, env)
+	if o.V == nil && replayRaceLog != "" {
+		o.V = newRaceReports(replayRaceLog)
+	}
 	if o.V == nil {
 		fmt.Println("REPLAY: no violation (the property held on this replay)")
 		return 0
